@@ -208,7 +208,7 @@ def known_match(known, pid, sig):
 # worker execution
 
 SAN_ENV = {
-    "ASAN_OPTIONS": "abort_on_error=0:detect_leaks=1:allocator_may_return_null=1:handle_abort=1:symbolize=1:detect_stack_use_after_return=0:exitcode=99",
+    "ASAN_OPTIONS": "abort_on_error=0:detect_leaks=0:allocator_may_return_null=1:handle_abort=1:symbolize=1:detect_stack_use_after_return=0:exitcode=99",
     "UBSAN_OPTIONS": "print_stacktrace=1:halt_on_error=1:exitcode=99",
     "LSAN_OPTIONS": "exitcode=98:print_suppressions=0",
     "ASAN_SYMBOLIZER_PATH": shutil.which("llvm-symbolizer") or shutil.which("llvm-symbolizer-14") or "",
